@@ -239,6 +239,41 @@ RowsCase(q) ==
              [meta |-> MkMeta(types, q.g, q.m, q.n), rows |-> rows]),
          typed, Map(cs, KindPlan), PrepFor(q.v, types, q.g))
 
+\* ------------------------------------------------------------------ MULTI: 2-3 rows of slice-/map-/string-valued cells whose sizes
+\* shrink, stay equal or grow from row to row, every row with its own contents: what one row
+\* shows must not depend on the rows read after it (destinations reused by the consumers)
+MKindType(k) == CASE k = 1 -> TInt [] k = 2 -> TText [] k = 4 -> TyList(TInt) [] k = 7 -> TySet(TInt)
+                  [] k = 8 -> TBlob [] k = 9 -> TyMap(TInt, TInt)
+MKindPlan(k) == [kind |-> CASE k = 1 -> "int" [] k = 2 -> "text" [] k \in {4, 7} -> "list_int" [] k = 8 -> "blob" [] k = 9 -> "map_int_int",
+                 elems |-> <<>>]
+MultiSets == << <<8>>, <<2>>, <<4>>, <<7>>, <<9>>, <<1, 8>>, <<8, 4>>, <<8, 8>>, <<9, 2>>, <<2, 7, 8>> >>
+\* size of the value in row r (1..3): 0 shrinking 8,4,2; 1 equal; 2 growing; 3 shrinking with a null in
+\* row 2 of the first column; 4 null first, then shrinking
+MultiSize(sp, r) == CASE sp \in {0, 3} -> <<8, 4, 2>>[r] [] sp = 1 -> 4 [] sp = 2 -> <<2, 4, 8>>[r] [] sp = 4 -> <<0, 8, 4>>[r]
+MultiNull(sp, r, c) == (sp = 3 /\ r = 2 /\ c = 1) \/ (sp = 4 /\ r = 1)
+MultiCell(v, k, r, c, sp) ==
+  LET sz == MultiSize(sp, r)
+      nul == MultiNull(sp, r, c)
+      ch == 64 + r + 3 * (c - 1)                       \* 'A','B','C' in column 1, 'D','E','F' in column 2, ...
+      n == sz \div 2
+      ints == [j \in 1 .. n |-> r * 100 + c * 10 + j]
+      keys == [j \in 1 .. n |-> j]
+  IN CASE k = 1 -> CInt(r)
+       [] k = 2 -> IF nul THEN CNullText ELSE CText([j \in 1 .. sz |-> ch])
+       [] k \in {4, 7} -> IF nul THEN CNullList ELSE CListInt(v, ints)
+       [] k = 8 -> IF nul THEN CNullBlob ELSE CBlob([j \in 1 .. sz |-> ch])
+       [] k = 9 -> IF nul THEN CNullMap ELSE CMapIntInt(v, keys, ints)
+MultiParams ==
+  {q \in [fam : {"MULTI"}, v : 1 .. 5, cs : 1 .. Len(MultiSets), nr : 2 .. 3, sp : 0 .. 4, g : BOOLEAN, n : BOOLEAN] :
+     /\ q.v >= 2 \/ ~q.n
+     /\ Thorough \/ q.g = ((q.cs + q.sp) % 2 = 0)}
+MultiCase(q) ==
+  LET cs == MultiSets[q.cs]
+      rows == [r \in 1 .. q.nr |-> [c \in 1 .. Len(cs) |-> MultiCell(q.v, cs[c], r, c, q.sp)]]
+      types == Map(cs, MKindType)
+  IN Out(Env("RESULT_ROWS", q.v, 0, 1, 0, [meta |-> MkMeta(types, q.g, FALSE, q.n), rows |-> rows]),
+         TRUE, Map(cs, MKindPlan), PrepFor(q.v, types, q.g))
+
 \* ------------------------------------------------------------------ PREPARED
 ReqTypes(v) == << <<>>, <<TInt>>, <<TInt, TText>>, <<TyList(TText), TMy>> >> \o
                (IF v >= 3 THEN << <<TTup>>, <<Udt(<<S_f1, S_f2>>, <<TInt, TTup>>), TInt>> >> ELSE <<>>)
@@ -263,11 +298,11 @@ PrepCase(q) ==
 \* ------------------------------------------------------------------ BFS generator
 Families == <<"SIMPLE", "ERROR", "SCHEMA", "EVENT", "TYPES", "ROWS", "PREP">>
 Init == \/ p \in SimpleParams \/ p \in ErrParams \/ p \in SchemaParams \/ p \in EventParams
-        \/ p \in TypeParams \/ p \in RowsParams \/ p \in PrepParams
+        \/ p \in TypeParams \/ p \in RowsParams \/ p \in PrepParams \/ p \in MultiParams
 Next == UNCHANGED p
 Case(q) == CASE q.fam = "SIMPLE" -> SimpleCase(q) [] q.fam = "ERROR" -> ErrCase(q) [] q.fam = "SCHEMA" -> SchemaCase(q)
              [] q.fam = "EVENT" -> EventCase(q) [] q.fam = "TYPES" -> TypeCase(q) [] q.fam = "ROWS" -> RowsCase(q)
-             [] q.fam = "PREP" -> PrepCase(q)
+             [] q.fam = "PREP" -> PrepCase(q) [] q.fam = "MULTI" -> MultiCase(q)
 Emit == PrintT("CASE " \o ToJson([fam |-> p.fam] @@ Case(p)))
 
 \* ------------------------------------------------------------------ -simulate: random deeper trees
